@@ -59,6 +59,15 @@ class Chapter10UDP(object):
         :rtype: None
         """
         (_ver_type, seg_lwr, seg_upr) = struct.unpack_from(Chapter10UDP.CH10_UDP_HEADER_FORMAT1, buffer)
+        # Fields that the format being decoded does not carry go back to their defaults
+        self.channelID = 0
+        self.channelsequence = 0
+        self.sequence = 0
+        self.segmentoffset = 0
+        self.packetsize = None
+        self.sourceid_len = 0
+        self.sourceid = 0
+        self.offset_pkt_start = None
         if _ver_type & 0xF == 1:
             self.version = 1
             self.type = _ver_type >> 4
